@@ -1,0 +1,95 @@
+//go:build verif
+
+// Exported wrappers for the verification harness (/verif, properties C13/C14).
+// Add-only and guarded by the build tag "verif": nothing here is compiled into a
+// normal build and no existing code refers to it.
+
+package parser
+
+import (
+	"github.com/goplus/xgo/scanner"
+	"github.com/goplus/xgo/token"
+)
+
+// VerifErrEvent is one error event: Kind 'p' = reported through parser.error,
+// 's' = reported by the scanner's error handler (p.errors.Add, see parser.init),
+// 'u' = appended from a sub-parser's list (stringLitExpr, tplLit, domainTextLitEx).
+type VerifErrEvent struct {
+	Kind   byte
+	Offset []int
+	Msg    []string
+}
+
+// VerifErrorSeq runs the real parser.error on a sequence of events over the given source
+// text (which only defines the line table), then sorts the list as the deferred function
+// of parseFile does.  bailed reports whether parser.error raised its bailout panic (the
+// remaining events are then skipped, as parsing would stop).
+func VerifErrorSeq(src []byte, mode Mode, events []VerifErrEvent) (raw, sorted scanner.ErrorList, bailed bool) {
+	var p parser
+	fset := token.NewFileSet()
+	p.file = fset.AddFile("", -1, len(src))
+	p.file.SetLinesForContent(src)
+	p.mode = mode
+	func() {
+		defer func() {
+			if e := recover(); e != nil {
+				if _, ok := e.(bailout); !ok {
+					panic(e)
+				}
+				bailed = true
+			}
+		}()
+		for _, ev := range events {
+			switch ev.Kind {
+			case 'p':
+				p.error(p.file.Pos(ev.Offset[0]), ev.Msg[0])
+			case 's':
+				p.errors.Add(p.file.Position(p.file.Pos(ev.Offset[0])), ev.Msg[0])
+			case 'u':
+				var sub scanner.ErrorList
+				for i := range ev.Offset {
+					sub.Add(p.file.Position(p.file.Pos(ev.Offset[i])), ev.Msg[i])
+				}
+				p.errors = append(p.errors, sub...)
+			}
+		}
+	}()
+	raw = append(raw, p.errors...)
+	p.errors.Sort()
+	sorted = p.errors
+	return
+}
+
+// VerifAdvanceState is the parser state observable around parser.advance.
+type VerifAdvanceState struct {
+	Pos     int // int(p.pos)
+	Tok     token.Token
+	SyncPos int
+	SyncCnt int
+}
+
+// VerifAdvanceScript initialises a real parser on src and runs a script of operations:
+// 'n' = p.next(), 's' / 'd' / 'e' = p.advance(stmtStart / declStart / exprEnd).
+// It returns the state after init and after every operation.
+func VerifAdvanceScript(src []byte, mode Mode, script string) (states []VerifAdvanceState) {
+	var p parser
+	p.init(token.NewFileSet(), "", src, mode)
+	snap := func() {
+		states = append(states, VerifAdvanceState{int(p.pos), p.tok, int(p.syncPos), p.syncCnt})
+	}
+	snap()
+	for i := 0; i < len(script); i++ {
+		switch script[i] {
+		case 'n':
+			p.next()
+		case 's':
+			p.advance(stmtStart)
+		case 'd':
+			p.advance(declStart)
+		case 'e':
+			p.advance(exprEnd)
+		}
+		snap()
+	}
+	return
+}
